@@ -159,6 +159,10 @@ class Fuzz:
             name = "%s-%d" % (tag, i)
             jobs.append((name, k, kind, route, data, ["store s0 " + data.hex()] + ops))
         out = self.ctx.batch([(j[0], "\n".join(j[5]) + "\n") for j in jobs], op_timeout=OP_TIMEOUT, workers=WORKERS)
+        if jobs and not getattr(self, "example", None):
+            j = next((x for x in jobs if x[2] != "seed" and len(x[4]) <= 1200), jobs[0])
+            self.example = {"kind": "mutated file + API script (monitored)", "seed_format": "%08x" % self.seeds[j[1]][0], "mutation": j[2], "route": j[3],
+                            "file_bytes_hex": j[4].hex()[:2400], "api_script": j[5][1:], "implementation_transcript": (out.get(j[0]) or [])[:12]}
         for (name, k, kind, route, data, ops) in jobs:
             tr = out.get(name)
             self.stats["files"] += 1
@@ -492,6 +496,8 @@ def run(ctx):
                             "Monitored only (ASan, %d s per-call alarm, forked children): %d mutated files of %d seed formats x random API scripts; "
                             "evaluations = files + tie cases; distinct_nontrivial = (seed format, open outcome) classes"
                             % (OP_TIMEOUT, fz.stats["files"], len(seeds)))
+    if getattr(fz, "example", None):
+        ctx.sample(fz.example)
     ctx.sample({"seed_formats": ["%08x" % s[0] for s in seeds[:12]], "mutation_kinds": fz.stats["by_kind"], "routes": fz.stats["by_route"]})
     ctx.assumptions.append("memory safety and termination of the parsers and codecs themselves are observed (ASan, alarms), not proved")
     ctx.assumptions.append("header-cache theorems assume read sizes and SEEK_SET positions are non-negative (true at every call site; proved necessary)")
